@@ -382,17 +382,17 @@ def PExpr.evalWith (opf : ω → α → α → α) (negf : α → α) (get : κ 
 
 inductive Link (κ ω α : Type) where
   | binary (e : Expr κ ω α)                          -- BinaryComponentLink
-  | using (froms : List κ) (f : ω) (ravel : Bool)    -- ComponentLink with a user function
+  | func (froms : List κ) (f : ω) (ravel : Bool)    -- ComponentLink with a user function
   | parsed (p : PExpr κ ω α)                         -- ParsedComponentLink
 
 def Link.fromIds : Link κ ω α → List κ
   | .binary e => e.fromIds
-  | .using fs _ _ => fs
+  | .func fs _ _ => fs
   | .parsed p => p.refs
 
 def Link.replace [DecidableEq κ] (old new : κ) : Link κ ω α → Link κ ω α
   | .binary e => .binary (e.replace old new)
-  | .using fs f r => .using (fs.map fun k => if k = old then new else k) f r
+  | .func fs f r => .func (fs.map fun k => if k = old then new else k) f r
   | .parsed p => .parsed (p.replace old new)
 
 inductive Comp (κ ω α : Type) where
@@ -456,7 +456,7 @@ def getData (I : Interp ω α) (v : List NAxis) (scalarShape : List Nat) :
     | none => .error .incompatible
     | some (.prim a) => .ok (toVal (applyViewN a v))
     | some (.derived (.binary e)) => e.evalWith I.opf (getData I v scalarShape fuel t)
-    | some (.derived (.using fs f ravel)) =>
+    | some (.derived (.func fs f ravel)) =>
       match sequenceE (fs.map (getData I v scalarShape fuel t)) with
       | .error e => .error e
       | .ok args =>
@@ -478,7 +478,7 @@ def specAt (I : Interp ω α) : Nat → Table κ ω α → List Int → κ → O
     | none => none
     | some (.prim a) => some (a.atI idx)
     | some (.derived (.binary e)) => e.evalPt I.opf (specAt I fuel t idx)
-    | some (.derived (.using fs f _)) =>
+    | some (.derived (.func fs f _)) =>
       (mapM' (specAt I fuel t idx) fs).map (I.fnf f)
     | some (.derived (.parsed p)) => p.evalPt I.opf I.negf (specAt I fuel t idx)
 
@@ -534,6 +534,15 @@ def updateId (repaired : Bool) (t : Table κ ω α) (old new : κ) : Table κ ω
         | c => (p.1, c)
     else t1
   else t
+
+def Comp.rename (old new : κ) : Comp κ ω α → Comp κ ω α
+  | .derived l => .derived (l.replace old new)
+  | c => c
+
+/-- **Spec** of `update_id(old, new)`: the identifier is renamed everywhere — as a key (in place)
+and inside every defining expression — and nothing else changes. -/
+def specRename (old new : κ) (t : Table κ ω α) : Table κ ω α :=
+  t.map fun p => (if p.1 = old then new else p.1, p.2.rename old new)
 
 end table
 
